@@ -537,3 +537,38 @@ Proof.
   - intros k x. by rewrite lookup_empty.
   - intros a o k d (x & <- & _)%lookup_fmap_Some Hd. simpl in Hd. by apply lookup_empty_Some in Hd.
 Qed.
+
+(* ------------------------------------------------------------------ *)
+(* API level: Snapshot; journalled calls; RevertToSnapshot = identity (but for the id counter) *)
+Lemma revert_entry_revs e j :
+  j_revs (revert_entry e j) = j_revs j ∧ j_nextrev (revert_entry e j) = j_nextrev j.
+Proof.
+  destruct e; simpl; unfold with_obj, al_delete_slot; rs; repeat case_match; rs; done.
+Qed.
+Lemma undo1_revs j : j_revs (undo1 j) = j_revs j ∧ j_nextrev (undo1 j) = j_nextrev j.
+Proof.
+  unfold undo1. destruct (j_entries j) as [|e rest]; [done|].
+  destruct (revert_entry_revs e j) as [H1 H2]. unfold unmutate.
+  destruct (mutation e) as [[a k]|]; [|destruct (revert_entry e j); rs; done].
+  destruct (j_muts (revert_entry e j) !! a); [|destruct (revert_entry e j); rs; done].
+  destruct (m_remove k m) as [m' []]; destruct (revert_entry e j); rs; done.
+Qed.
+Lemma revert_n_revs n j : j_revs (revert_n n j) = j_revs j ∧ j_nextrev (revert_n n j) = j_nextrev j.
+Proof.
+  revert j. induction n as [|n IH]; intros j; [done|]. rewrite revert_n_S.
+  destruct (j_entries j); [done|]. destruct (IH (undo1 j)) as [-> ->]. apply undo1_revs.
+Qed.
+
+Theorem snapshot_revert j ops :
+  let j0 := (step_j j OSnapshot).1 in
+  run_ok j0 ops →
+  step_j (run_j j0 ops) (ORevert (j_nextrev j)) = (j <| j_nextrev ::= N.succ |>, RNone).
+Proof.
+  intros j0 H. pose proof (restore_run j0 ops H) as R.
+  assert (Hrev : j_revs (run_j j0 ops) = (j_nextrev j, length (j_entries j)) :: j_revs j).
+  { rewrite -(proj1 (revert_n_revs (length (j_entries (run_j j0 ops)) - length (j_entries j0)) _)).
+    fold (revert_to (length (j_entries j0)) (run_j j0 ops)). rewrite R. subst j0. by destruct j. }
+  simpl. rewrite Hrev. simpl. rewrite N.eqb_refl. f_equal.
+  assert (E : length (j_entries j) = length (j_entries j0)) by (subst j0; by destruct j).
+  rewrite E R. subst j0. by destruct j.
+Qed.
